@@ -783,5 +783,5 @@ def _run(world: World, plan):
         world.probe('trigger_never_fired', stats['never_fired'])
     for rec in loop.exc_contexts:
         world.probe('loop_exception_handler:' + str(rec.get('exc_type')))
-    sig.sort()
+    sig.sort(key=repr)
     return common.finish(world, nontrivial, [sig, bool(loss)])
